@@ -228,19 +228,22 @@ class SecWalk:
         r = self.r
         if not self.o.strict_capital and self.trade_dates and r.random() < 0.7:
             self.date = max(self.trade_dates)      # put the event on the latest trade date of the security
+        # the quantity an event line quotes is informational (a statement may quote the units before a part disposal, or
+        # one account's share): usually the holding, sometimes more, sometimes less
+        evq = r.choice([1, 1, 1, 3, Fraction(1, 2), 10])
         if r.random() < 0.5:
             amt = Fraction(r.randint(1, 2000), 100)
             f = Fraction(r.randint(0, 100), 100) if r.random() < 0.3 else ZERO
             f = min(f, amt)
             self.txs.append({"date": iso(self.date), "ticker": self.tk, "kind": "CAPRETURN",
-                             "amount": self.dq(max(self.pos, Fraction(1))), "total": money(amt, self.cur()),
+                             "amount": self.dq(max(self.pos, Fraction(1)) * evq), "total": money(amt, self.cur()),
                              "fees": money(f, self.cur() if f else "GBP")})
             self.feat.add("capreturn")
         else:
             amt = Fraction(r.randint(1, 5000), 100)
             t = Fraction(r.randint(0, 100), 100) if r.random() < 0.3 else ZERO
             self.txs.append({"date": iso(self.date), "ticker": self.tk, "kind": "ACCUMULATION",
-                             "amount": self.dq(max(self.pos, Fraction(1))), "total": money(amt, self.cur()),
+                             "amount": self.dq(max(self.pos, Fraction(1)) * evq), "total": money(amt, self.cur()),
                              "tax": money(t, self.cur() if t else "GBP")})
             self.feat.add("accumulation")
         self.event_dates.add(self.date)
